@@ -146,7 +146,10 @@ func (v *vclock) after(s *sim, st rig.StepResult, ctx stepCtx) {
 // advance moves virtual time forward, firing the armed timers at their deadlines.
 func (v *vclock) advance(s *sim, d time.Duration) {
 	target := v.now + d
-	for {
+	for fired := 0; ; fired++ {
+		if fired > 5000 {
+			s.t.Fatalf("harness: more than 5000 timer events in one advance of %v (a timer armed with a zero interval?)\n%s", d, s.history())
+		}
 		next, name := time.Duration(-1), ""
 		for _, n := range []string{"heartbeat", "peer"} {
 			if dl, ok := v.deadline[n]; ok && dl <= target && (next < 0 || dl < next) {
